@@ -153,7 +153,7 @@ func c07Leader(lo, hi int) {
 	dbChoice := []int{0, 1, 7}
 	db := dbChoice[vr.Choose("db", 3)]
 	k, k2, v := "key", "other", "val"
-	nodes := c07Cluster(2, false)
+	nodes := c07Cluster(2+vr.Tier(), false) // thorough: a second replica
 	defer c07Shutdown(nodes)
 	ref := verifServer()
 	// every machine has its own clock, and a replica applies an entry later than the leader
@@ -162,7 +162,9 @@ func c07Leader(lo, hi int) {
 	vr.Assume(base >= 1_700_000_000_000 && base <= 3_000_000_000_000 && skew >= 0 && skew <= 60_000)
 	t0, t1 := time.UnixMilli(base), time.UnixMilli(base+skew)
 	nodes[0].clock, ref.clock = verifClock{now: &t0}, verifClock{now: &t0}
-	nodes[1].clock = verifClock{now: &t1}
+	for _, n := range nodes[1:] {
+		n.clock = verifClock{now: &t1}
+	}
 	_ = nodes[0].SelectDB(db)
 	_ = ref.SelectDB(db)
 	dbs := []int{0, 1, 7}
@@ -175,7 +177,9 @@ func c07Leader(lo, hi int) {
 	vr.Assert(r == rr, "C07.leader.reply_as_standalone")
 	vr.Assert(c07View(nodes[0], dbs, k, k2) == c07View(ref, dbs, k, k2), "C07.leader.acknowledged_write_visible_in_selected_database")
 	c07Settle(nodes, dbs, k, k2)
-	vr.Assert(c07View(nodes[1], dbs, k, k2) == c07View(nodes[0], dbs, k, k2), "C07.replica.same_dataset_in_every_database")
+	for _, n := range nodes[1:] {
+		vr.Assert(c07View(n, dbs, k, k2) == c07View(nodes[0], dbs, k, k2), "C07.replica.same_dataset_in_every_database")
+	}
 	vr.Reach("end")
 }
 
@@ -207,9 +211,11 @@ func Verif_C07_FollowerNeverAppliesLocally() {
 		vr.Assert(strings.HasPrefix(r, "ERR ") && strings.Contains(r, "not cluster leader"), "C07.follower.rejects_client_write")
 		vr.Assert(c07View(nodes[1], dbs, k, k2) == before && c07View(nodes[0], dbs, k, k2) == before, "C07.follower.rejected_write_changes_nothing")
 	} else {
-		// (natively a forwarded write comes back through gossip and raft only some hundred
-		// milliseconds later; what is looked at here is the moment the call returns)
-		vr.Assert(c07View(nodes[1], dbs, k, k2) == before, "C07.follower.forwarded_write_not_applied_locally")
+		// handed over: whatever shows up on the follower came back through replication, so the
+		// leader shows it too (natively that takes a moment; the check looks right away and again
+		// once things have settled)
+		now := c07View(nodes[1], dbs, k, k2)
+		vr.Assert(now == before || now == c07View(nodes[0], dbs, k, k2), "C07.follower.forwarded_write_not_applied_locally")
 	}
 	vr.Reach("end")
 }
@@ -276,3 +282,33 @@ func Verif_C07_Routing_Hash()    { c07Routing(constants.HashModule, gHash) }
 func Verif_C07_Routing_Set()     { c07Routing(constants.SetModule, gSet) }
 func Verif_C07_Routing_ZSet()    { c07Routing(constants.SortedSetModule, gZSet) }
 
+
+// Verif_C07_ForwardedWrite: with forwarding on, a write that arrives at a follower is handed to
+// the leader and ends up - on every node - where a standalone server would have put it: in the
+// database the client had selected.
+func Verif_C07_ForwardedWrite() {
+	wi := vr.Choose("write", 8)
+	w := c07Writes[wi]
+	dbChoice := []int{0, 1, 7}
+	db := dbChoice[vr.Choose("db", 3)]
+	k, k2, v := "key", "other", "val"
+	nodes := c07Cluster(2, true)
+	defer c07Shutdown(nodes)
+	ref := verifServer()
+	_ = nodes[1].SelectDB(db)
+	_ = ref.SelectDB(db)
+	dbs := []int{0, 1, 7}
+	r := c07Run(nodes[1], c07Subst(w, k, k2, v))
+	c07Run(ref, c07Subst(w, k, k2, v))
+	vr.Assert(r == "+OK\r\n", "C07.forward.follower_acknowledges")
+	want := c07View(ref, dbs, k, k2)
+	if !vr.Symbolic() {
+		for t := 0; t < 600 && c07View(nodes[0], dbs, k, k2) != want; t++ {
+			time.Sleep(10 * time.Millisecond)
+		}
+	}
+	c07Settle(nodes, dbs, k, k2)
+	vr.Assert(c07View(nodes[0], dbs, k, k2) == want, "C07.forward.write_lands_in_the_selected_database_on_the_leader")
+	vr.Assert(c07View(nodes[1], dbs, k, k2) == c07View(nodes[0], dbs, k, k2), "C07.forward.replica_same_dataset")
+	vr.Reach("end")
+}
